@@ -441,7 +441,7 @@ DIRECTED += _escape_programs()
 
 def _temporal_programs():
     """date / time / timestamp literals in every documented written form (hour only, with minutes, seconds, fractions, `Z` and numeric
-    offsets) and just outside it: the back end re-slices the text of such literals per dialect (DIRECTED programs run for all 12 dialects)"""
+    offsets) and just outside it: the back end re-slices the text of such literals per dialect (compiled for all 12 dialects in run())"""
     times = ["@16", "@16Z", "@16:30", "@16:30Z", "@08:30:00", "@08:30:00.5", "@08:30:00.123456", "@08:30:00Z", "@08:30:00+01", "@08:30:00+0100",
              "@08:30:00+01:00", "@08:30:00-0530", "@8", "@08:3", "@24", "@00:00:00.000000001"]
     dates = ["@2022-12-31", "@2022-1-1", "@0001-01-01", "@9999-12-31", "@2022-02-30", "@2022-12-31T16", "@2022-12-31T16:54", "@2022-12-31T16:54:32",
@@ -454,7 +454,6 @@ def _temporal_programs():
     return out
 
 
-DIRECTED += _temporal_programs()
 
 PUNCT = ["(", ")", "{", "}", "[", "]", "|", ",", "=", "==", "->", "=>", "..", "-", "+", "*", "!", "??", ".", ":", "@", "\"", "'", "`", "\\", "\n", "s\"", "f\"", "$1", "#", "0x", "1e", "_"]
 MULTI = ["é", "€", "😀", "\u2028", "ß", "中", "\u0301", "\ufeff", "\x00", "\x7f", "\u200b"]
@@ -986,6 +985,13 @@ def run(ctx):
     for d_ in DIRECTED:
         reqs += src_reqs(d_, "directed")
     ex.run(reqs, "i-directed", timeout=300)
+
+    reqs = []
+    for src in _temporal_programs():
+        reqs += src_reqs(src, "temporal-literal")
+        for d in DIALECTS:
+            reqs += src_reqs(src, "temporal-literal", ops=[("compile", "prql")], target="sql." + d)
+    ex.run(reqs, "i-temporal", timeout=300)
 
     cop = clause_order_programs()
     n_all = len(CLAUSE_FORMS) ** 2 + 6 * len(CLAUSE_FORMS)      # pairs: every dialect; triples: sampled in quick, three dialects each
